@@ -194,25 +194,25 @@ Qed.
 (* ------------------------------------------------------------------ code vs documented meaning *)
 
 Lemma seen_hops_agree k i :
-  k <> FBmp \/ in_legacy_as i = false -> seen_hops true k i = seen_hops false k i.
+  k = FRib \/ in_legacy_as i = false -> seen_hops true k i = seen_hops false k i.
 Proof.
   intros H. unfold seen_hops. destruct (in_attrs i) as [a|]; [|reflexivity].
-  destruct k; try reflexivity. destruct H as [H|H]; [congruence|]. rewrite H. reflexivity.
+  destruct k; try reflexivity; (destruct H as [H|H]; [congruence|]; rewrite H; reflexivity).
 Qed.
 
 Lemma eval_pred_agree k e i p :
-  k <> FBmp \/ in_legacy_as i = false -> eval_pred true k e i p = eval_pred false k e i p.
+  k = FRib \/ in_legacy_as i = false -> eval_pred true k e i p = eval_pred false k e i p.
 Proof. intros H. destruct p; cbn [eval_pred]; rewrite ?(seen_hops_agree k i H); reflexivity. Qed.
 
 Lemma eval_cond_agree k e i c :
-  k <> FBmp \/ in_legacy_as i = false -> eval_cond true k e i c = eval_cond false k e i c.
+  k = FRib \/ in_legacy_as i = false -> eval_cond true k e i c = eval_cond false k e i c.
 Proof.
   intros H. induction c as [| |p|c IH|a IHa b IHb|a IHa b IHb]; cbn [eval_cond];
     rewrite ?IH, ?IHa, ?IHb; try reflexivity. apply eval_pred_agree. exact H.
 Qed.
 
 Lemma exec_agree k i p : forall e,
-  k <> FBmp \/ in_legacy_as i = false -> exec true k e i p = exec false k e i p.
+  k = FRib \/ in_legacy_as i = false -> exec true k e i p = exec false k e i p.
 Proof.
   intros e H. revert e.
   induction p as [|o r IH|ty n r IH|c th IHth el IHel r IHr|b]; intros e; cbn [exec].
@@ -224,7 +224,7 @@ Proof.
 Qed.
 
 Lemma eval_meets_spec_partial k p i :
-  k <> FBmp \/ in_legacy_as i = false -> eval k p i = eval_spec k p i.
+  k = FRib \/ in_legacy_as i = false -> eval k p i = eval_spec k p i.
 Proof. intros H. unfold eval, eval_spec, eval_gen. rewrite (exec_agree k i p [] H). reflexivity. Qed.
 
 (* the witness: a peer without the 4-octet capability announces a path through
@@ -235,6 +235,15 @@ Definition legacy_witness_input : input :=
 Lemma eval_legacy_refuted :
   eval FBmp legacy_witness_prog legacy_witness_input = (true, []) /\
   eval_spec FBmp legacy_witness_prog legacy_witness_input = (false, []).
+Proof. split; vm_compute; reflexivity. Qed.
+
+(* the same at bgp-in: a session with a peer that did not send the 4-octet
+   capability (AS65002, ingress id 7) *)
+Definition bgp_legacy_witness_input : input :=
+  MkIn K_RM 0 (Some (MkAttrs (Some [(false, [65001; 65002])]) [] [] [])) 1 0 None 65002 7 true.
+Lemma eval_bgp_legacy_refuted :
+  eval FBgp legacy_witness_prog bgp_legacy_witness_input = (true, []) /\
+  eval_spec FBgp legacy_witness_prog bgp_legacy_witness_input = (false, []).
 Proof. split; vm_compute; reflexivity. Qed.
 
 (* ------------------------------------------------------------------ call sites *)
@@ -557,7 +566,7 @@ Lemma bmp_unit_accept lb render p rid st m :
   upds_of (snd (bmp_unit lb render (Some p) rid st m)) = upds_of (snd (bmp_unit lb render None rid st m)).
 Proof.
   intros H. unfold bmp_unit, filter_fn.
-  destruct (msg_accept (fun x : msg * input => eval_gen lb FBmp p (snd x)) (fun mi : msg * input => render (snd mi))
+  destruct (msg_accept (fun x : bmsg * input => eval_gen lb FBmp p (snd x)) (fun mi : bmsg * input => render (snd mi))
               (bmp_process rid) st m H) as (_ & _ & H3 & H4).
   split; assumption.
 Qed.
@@ -569,10 +578,10 @@ Proof. unfold bmp_unit, filter_fn. apply msg_no_filter. Qed.
 Lemma bmp_unit_outputs lb render p rid st m :
   outs_of (snd (bmp_unit lb render (Some p) rid st m)) = omap (render (snd m)) (snd (eval_gen lb FBmp p (snd m))) /\
   exists us, snd (bmp_unit lb render (Some p) rid st m) =
-             drain (fun mi : msg * input => render (snd mi)) m (snd (eval_gen lb FBmp p (snd m))) ++ map DUpd us.
+             drain (fun mi : bmsg * input => render (snd mi)) m (snd (eval_gen lb FBmp p (snd m))) ++ map DUpd us.
 Proof.
   unfold bmp_unit, filter_fn.
-  exact (msg_outputs (fun x : msg * input => eval_gen lb FBmp p (snd x)) (fun mi : msg * input => render (snd mi))
+  exact (msg_outputs (fun x : bmsg * input => eval_gen lb FBmp p (snd x)) (fun mi : bmsg * input => render (snd mi))
            (bmp_process rid) st m).
 Qed.
 
@@ -590,3 +599,249 @@ Proof.
   - exact (proj1 (msg_outputs (fun x : upd * input => eval_gen lb FBgp p (snd x)) (fun mi : upd * input => render (snd mi))
                     (bgp_process id) tt m)).
 Qed.
+
+(* ------------------------------------------------------------------ *)
+(* The provenance a filter is handed (round 4).                        *)
+
+(* which BMP messages carry a per-peer header: all but Initiation and Termination *)
+Lemma bmsg_pph_kinds b :
+  (bmsg_pph b = None <-> bmsg_kind b = K_INIT \/ bmsg_kind b = K_TERM) /\
+  (is_Some (bmsg_pph b) <->
+   bmsg_kind b = K_RM \/ bmsg_kind b = K_STATS \/ bmsg_kind b = K_PEERDOWN \/ bmsg_kind b = K_PEERUP \/ bmsg_kind b = K_MIRROR) /\
+  bmsg_kind b < 7.
+Proof.
+  destruct b as [[]|]; cbn; unfold K_INIT, K_TERM, K_RM, K_STATS, K_PEERDOWN, K_PEERUP, K_MIRROR.
+  all: split; [|split]; [| |lia].
+  all: split; intros H.
+  all: try discriminate; try (left; reflexivity); try (right; reflexivity); try reflexivity; try (eexists; reflexivity).
+  all: try (destruct H as [H|H]; discriminate H).
+  all: try (exfalso; destruct H as [y Hy]; discriminate Hy).
+  all: try (destruct H as [H|[H|[H|[H|H]]]]; discriminate H).
+  all: try (right; left; reflexivity); try (right; right; left; reflexivity); try (right; right; right; left; reflexivity);
+       try (right; right; right; right; reflexivity).
+Qed.
+
+Lemma bmp_prov_header c b p :
+  bmsg_pph b = Some p -> bmp_prov c b = MkProv (pv_ingress c) (ph_addr p) (ph_asn p).
+Proof. unfold bmp_prov. intros ->. reflexivity. Qed.
+
+Lemma bmp_prov_conn c b : bmsg_pph b = None -> bmp_prov c b = c.
+Proof. unfold bmp_prov. intros ->. reflexivity. Qed.
+
+Lemma bmp_view_fields c b a lg :
+  in_peer_asn (bmp_view c b a lg) = pv_asn (bmp_prov c b) /\
+  in_pph_asn (bmp_view c b a lg) = option_map ph_asn (bmsg_pph b) /\
+  in_kind (bmp_view c b a lg) = bmsg_kind b /\
+  in_ingress (bmp_view c b a lg) = pv_ingress c.
+Proof. unfold bmp_view. cbn. repeat split. Qed.
+
+(* the statement of the property for this call site *)
+Lemma bmp_filter_sees_header_provenance rid addr b a lg :
+  let i := bmp_view (conn_prov rid addr) b a lg in
+  (forall p, bmsg_pph b = Some p ->
+     bmp_prov (conn_prov rid addr) b = MkProv rid (ph_addr p) (ph_asn p) /\ in_peer_asn i = ph_asn p) /\
+  (bmsg_pph b = None -> bmp_prov (conn_prov rid addr) b = conn_prov rid addr /\ in_peer_asn i = 0) /\
+  in_ingress i = rid.
+Proof.
+  cbn zeta. destruct (bmp_view_fields (conn_prov rid addr) b a lg) as (Ha & _ & _ & Hi).
+  split; [|split].
+  - intros p Hp. rewrite Ha, (bmp_prov_header _ _ _ Hp). split; reflexivity.
+  - intros Hn. rewrite Ha, (bmp_prov_conn _ _ Hn). split; reflexivity.
+  - exact Hi.
+Qed.
+
+(* a condition / program that reads only the provenance cannot tell two inputs
+   with the same peer AS apart - whatever kind of message they are *)
+Lemma eval_cond_prov_only lb k e i1 i2 c :
+  cond_prov_only c = true -> in_peer_asn i1 = in_peer_asn i2 ->
+  eval_cond lb k e i1 c = eval_cond lb k e i2 c.
+Proof.
+  intros Hc Hi. induction c as [| |p|c IH|c1 IH1 c2 IH2|c1 IH1 c2 IH2]; cbn in *; try reflexivity.
+  - destruct p; try discriminate. cbn. rewrite Hi. reflexivity.
+  - rewrite IH by exact Hc. reflexivity.
+  - apply andb_true_iff in Hc as [H1 H2]. rewrite IH1, IH2 by assumption. reflexivity.
+  - apply andb_true_iff in Hc as [H1 H2]. rewrite IH1, IH2 by assumption. reflexivity.
+Qed.
+
+Lemma exec_prov_only lb k i1 i2 p :
+  in_peer_asn i1 = in_peer_asn i2 ->
+  forall e, prov_only p = true -> exec lb k e i1 p = exec lb k e i2 p.
+Proof.
+  intros Hi. induction p as [|o r IH|ty n r IH|c th IHt el IHe r IHr|b]; intros e Hp; cbn in *; try reflexivity.
+  - rewrite (IH e Hp). reflexivity.
+  - apply IH. exact Hp.
+  - apply andb_true_iff in Hp as [Hp Hr]. apply andb_true_iff in Hp as [Hp He]. apply andb_true_iff in Hp as [Hc Ht].
+    rewrite (eval_cond_prov_only lb k e i1 i2 c Hc Hi).
+    destruct (eval_cond lb k e i2 c).
+    + rewrite (IHt e Ht), (IHr e Hr). reflexivity.
+    + rewrite (IHe e He), (IHr e Hr). reflexivity.
+Qed.
+
+Lemma eval_prov_only lb k p i1 i2 :
+  prov_only p = true -> in_peer_asn i1 = in_peer_asn i2 -> eval_gen lb k p i1 = eval_gen lb k p i2.
+Proof. intros Hp Hi. unfold eval_gen. rewrite (exec_prov_only lb k i1 i2 p Hi [] Hp). reflexivity. Qed.
+
+(* bmp-in: a filter on the peer AS gives the same verdict and the same output
+   entries to every message - of whatever type - about the same peer *)
+Lemma bmp_peer_filter_uniform lb p c b1 b2 q1 q2 a1 a2 l1 l2 :
+  prov_only p = true ->
+  bmsg_pph b1 = Some q1 -> bmsg_pph b2 = Some q2 -> ph_asn q1 = ph_asn q2 ->
+  eval_gen lb FBmp p (bmp_view c b1 a1 l1) = eval_gen lb FBmp p (bmp_view c b2 a2 l2).
+Proof.
+  intros Hp H1 H2 Hq. apply eval_prov_only; [exact Hp|].
+  destruct (bmp_view_fields c b1 a1 l1) as (-> & _). destruct (bmp_view_fields c b2 a2 l2) as (-> & _).
+  rewrite (bmp_prov_header _ _ _ H1), (bmp_prov_header _ _ _ H2). cbn. exact Hq.
+Qed.
+
+(* ... and to the messages without a per-peer header the verdict it gives to AS0 *)
+Lemma bmp_peer_filter_headerless lb p rid addr b1 b2 a1 a2 l1 l2 :
+  prov_only p = true -> bmsg_pph b1 = None -> bmsg_pph b2 = None ->
+  eval_gen lb FBmp p (bmp_view (conn_prov rid addr) b1 a1 l1) = eval_gen lb FBmp p (bmp_view (conn_prov rid addr) b2 a2 l2).
+Proof.
+  intros Hp H1 H2. apply eval_prov_only; [exact Hp|].
+  destruct (bmp_view_fields (conn_prov rid addr) b1 a1 l1) as (-> & _).
+  destruct (bmp_view_fields (conn_prov rid addr) b2 a2 l2) as (-> & _).
+  rewrite (bmp_prov_conn _ _ H1), (bmp_prov_conn _ _ H2). reflexivity.
+Qed.
+
+(* bgp-in: every UPDATE of a session is judged with the session's provenance *)
+Lemma bgp_view_fields pv u a lg :
+  in_peer_asn (bgp_view pv u a lg) = pv_asn pv /\ in_ingress (bgp_view pv u a lg) = pv_ingress pv.
+Proof. split; reflexivity. Qed.
+
+Lemma bgp_peer_filter_uniform lb p pv u1 u2 a1 a2 l1 l2 :
+  prov_only p = true -> eval_gen lb FBgp p (bgp_view pv u1 a1 l1) = eval_gen lb FBgp p (bgp_view pv u2 a2 l2).
+Proof. intros Hp. apply eval_prov_only; [exact Hp|reflexivity]. Qed.
+
+(* rib-in-pre: the id on an output message is the one of the payload's provenance, for both context classes *)
+Lemma rib_view_ingress c k a : in_ingress (rib_view_ctx c k a) = k_mui k /\ in_peer_asn (rib_view_ctx c k a) = 0.
+Proof. destruct c; split; reflexivity. Qed.
+
+(* ---- the counters of the connection handler ---- *)
+
+Definition count_kind (k : N) (ms : list (bmsg * input)) : N :=
+  N.of_nat (length (List.filter (fun m : bmsg * input => N.eqb (bmsg_kind (fst m)) k) ms)).
+Definition count_invalid (os : list outcome) : N :=
+  N.of_nat (length (List.filter (fun o => match o with OInvalid => true | _ => false end) os)).
+
+(* one message: the counters do not influence anything else (erasure), received
+   is counted whatever the verdict, processed iff the filter lets it through *)
+Lemma bmp_unit_cnt_step lb render flt rid st c m :
+  let res := bmp_unit_cnt lb render flt rid (st, c) m in
+  let plain := bmp_unit lb render flt rid st m in
+  fst (fst res) = fst plain /\ snd res = snd plain /\
+  (forall j, bc_recv (snd (fst res)) j = if N.eqb j (bmsg_kind (fst m)) then N.succ (bc_recv c j) else bc_recv c j) /\
+  bc_proc (snd (fst res)) = (if bmp_lets_through lb flt m then N.succ (bc_proc c) else bc_proc c) /\
+  bc_inval (snd (fst res)) =
+    (if bmp_lets_through lb flt m
+     then match snd (sm_step (fst st) rid (snd st) (bmsg_sm (fst m))) with OInvalid => N.succ (bc_inval c) | _ => bc_inval c end
+     else bc_inval c).
+Proof.
+  cbn zeta. unfold bmp_unit_cnt, bmp_unit, bmp_lets_through, msg_site, filter_fn.
+  destruct flt as [p|]; cbn [fst snd].
+  - destruct (eval_gen lb FBmp p (snd m)) as [acc os]. cbn [fst snd]. destruct acc.
+    + unfold bmp_process_cnt, bmp_process. cbn [fst snd].
+      destruct (sm_step (fst st) rid (snd st) (bmsg_sm (fst m))) as [[r' s'] o]. cbn [fst snd].
+      repeat split; destruct o; reflexivity.
+    + cbn. repeat split.
+  - unfold bmp_process_cnt, bmp_process. cbn [fst snd].
+    destruct (sm_step (fst st) rid (snd st) (bmsg_sm (fst m))) as [[r' s'] o]. cbn [fst snd].
+    repeat split; destruct o; reflexivity.
+Qed.
+
+Lemma bmp_unit_cnt_state lb render flt rid st c m :
+  fst (fst (bmp_unit_cnt lb render flt rid (st, c) m)) =
+  if bmp_lets_through lb flt m
+  then (fst (fst (sm_step (fst st) rid (snd st) (bmsg_sm (fst m)))), snd (fst (sm_step (fst st) rid (snd st) (bmsg_sm (fst m)))))
+  else st.
+Proof.
+  unfold bmp_unit_cnt, bmp_lets_through, msg_site, filter_fn.
+  destruct flt as [p|]; cbn [fst snd].
+  - destruct (eval_gen lb FBmp p (snd m)) as [acc os]. cbn [fst snd]. destruct acc; [|reflexivity].
+    unfold bmp_process_cnt. cbn [fst snd].
+    destruct (sm_step (fst st) rid (snd st) (bmsg_sm (fst m))) as [[r' s'] o]. reflexivity.
+  - unfold bmp_process_cnt. cbn [fst snd].
+    destruct (sm_step (fst st) rid (snd st) (bmsg_sm (fst m))) as [[r' s'] o]. reflexivity.
+Qed.
+
+(* a whole connection, any length: the state machine has seen exactly the
+   messages the filter let through, in order; processed = their number;
+   invalid = those of them the state machine refused; received = all, by type *)
+Lemma bmp_run_cnt_counts lb render flt rid : forall ms st c,
+  let res := bmp_run_cnt lb render flt rid (st, c) ms in
+  let acc := List.filter (bmp_lets_through lb flt) ms in
+  let smr := sm_run (fst st) rid (snd st) (map (fun m : bmsg * input => bmsg_sm (fst m)) acc) in
+  fst (fst res) = (fst (fst smr), snd (fst smr)) /\
+  bc_proc (snd (fst res)) = bc_proc c + N.of_nat (length acc) /\
+  bc_inval (snd (fst res)) = bc_inval c + count_invalid (snd smr) /\
+  (forall j, bc_recv (snd (fst res)) j = bc_recv c j + count_kind j ms).
+Proof.
+  induction ms as [|m ms IH]; intros st c; cbn zeta.
+  - cbn. destruct st. repeat split; unfold count_invalid, count_kind; cbn; lia.
+  - cbn [bmp_run_cnt].
+    pose proof (bmp_unit_cnt_state lb render flt rid st c m) as Hst.
+    destruct (bmp_unit_cnt_step lb render flt rid st c m) as (_ & _ & H3 & H4 & H5). cbn zeta in H3, H4, H5.
+    destruct (bmp_unit_cnt lb render flt rid (st, c) m) as [[st1 c1] ds]. cbn [fst snd] in Hst, H3, H4, H5.
+    specialize (IH st1 c1). cbn zeta in IH.
+    destruct (bmp_run_cnt lb render flt rid (st1, c1) ms) as [[st2 c2] ds']. cbn [fst snd] in IH |- *.
+    destruct IH as (I1 & I2 & I3 & I4).
+    cbn [List.filter].
+    destruct (bmp_lets_through lb flt m) eqn:Hl.
+    + cbn [map sm_run length].
+      destruct (sm_step (fst st) rid (snd st) (bmsg_sm (fst m))) as [[r' s'] o] eqn:Hs. cbn [fst snd] in Hst, H5.
+      subst st1. cbn [fst snd] in I1, I3.
+      destruct (sm_run r' rid s' (map (fun m0 : bmsg * input => bmsg_sm (fst m0)) (List.filter (bmp_lets_through lb flt) ms)))
+        as [[r2 s2] os] eqn:Hr. cbn [fst snd] in I1, I3 |- *.
+      split; [exact I1|]. split; [rewrite I2, H4; lia|]. split.
+      * rewrite I3, H5. unfold count_invalid. cbn [List.filter]. destruct o; cbn [length]; lia.
+      * intros j. rewrite I4, H3. unfold count_kind. cbn [List.filter fst].
+        rewrite (N.eqb_sym j). destruct (N.eqb (bmsg_kind (fst m)) j); cbn [length]; lia.
+    + subst st1. split; [exact I1|]. split; [rewrite I2, H4; lia|]. split; [rewrite I3, H5; lia|].
+      intros j. rewrite I4, H3. unfold count_kind. cbn [List.filter fst].
+      rewrite (N.eqb_sym j). destruct (N.eqb (bmsg_kind (fst m)) j); cbn [length]; lia.
+Qed.
+
+(* what a filter on the peer AS does to a connection's counters: if it rejects
+   one message about a peer, no message about that peer - Statistics Report and
+   Route Mirroring included - reaches the state machine or is counted as processed *)
+Lemma bmp_peer_filter_rejects_all lb render p rid st c cn b0 b q0 q a0 a l0 l :
+  prov_only p = true ->
+  bmsg_pph b0 = Some q0 -> bmsg_pph b = Some q -> ph_asn q0 = ph_asn q ->
+  fst (eval_gen lb FBmp p (bmp_view cn b0 a0 l0)) = false ->
+  let m := (b, bmp_view cn b a l) in
+  let res := bmp_unit_cnt lb render (Some p) rid (st, c) m in
+  fst (fst res) = st /\ bc_proc (snd (fst res)) = bc_proc c /\ bc_inval (snd (fst res)) = bc_inval c /\
+  upds_of (snd res) = [] /\
+  outs_of (snd res) = omap (render (snd m)) (snd (eval_gen lb FBmp p (bmp_view cn b0 a0 l0))).
+Proof.
+  intros Hp H0 H1 Hq Hrej. cbn zeta.
+  pose proof (bmp_peer_filter_uniform lb p cn b0 b q0 q a0 a l0 l Hp H0 H1 Hq) as Heq.
+  destruct (bmp_unit_cnt_step lb render (Some p) rid st c (b, bmp_view cn b a l)) as (S1 & S2 & _ & S4 & S5).
+  cbn zeta in *. unfold bmp_lets_through in S4, S5. cbn [snd fst] in S4, S5.
+  rewrite <- Heq, Hrej in S4, S5.
+  assert (Hacc : accepts lb FBmp p (snd (b, bmp_view cn b a l)) = false).
+  { unfold accepts. cbn [snd]. rewrite <- Heq. exact Hrej. }
+  destruct (bmp_unit_reject lb render p rid st (b, bmp_view cn b a l) Hacc) as [R1 R2].
+  destruct (bmp_unit_outputs lb render p rid st (b, bmp_view cn b a l)) as [O1 _].
+  rewrite S1, S2, S4, S5, R1, R2, O1. cbn [snd]. rewrite <- Heq. repeat split.
+Qed.
+
+(* non-vacuity: "reject and log everything about AS12345" on a connection - the
+   peer's Peer Down, Statistics Report and Route Mirroring are rejected and
+   logged, the Statistics Report about another peer and the Initiation pass *)
+Definition prov_witness_prog : prog :=
+  PLet 1 12345 (PIf (CPred (PPeerAsn (AVar 0))) (POut (OAsn (AVar 0)) (PRet false)) (PRet true) PEnd).
+Lemma prov_witness :
+  let q : pph := (0, 0, 0, 0, 1, 12345, 1) in
+  let q' : pph := (0, 0, 0, 0, 2, 54321, 2) in
+  let cn := conn_prov 1 99 in
+  let na := MkAttrs None [] [] [] in
+  let v b := bmp_view cn b na false in
+  let ms := [(BMsg MInit, v (BMsg MInit)); (BMsg (MPeerDown q), v (BMsg (MPeerDown q)));
+             (BMsg (MStats q), v (BMsg (MStats q))); (BMirror q, v (BMirror q)); (BMsg (MStats q'), v (BMsg (MStats q')))] in
+  let res := bmp_run_cnt true render_bmp (Some prov_witness_prog) 1 ((IngressModel.reg_new, sm_init), cnt0) ms in
+  prov_only prov_witness_prog = true /\ returns prov_witness_prog = true /\
+  map (bmp_lets_through true (Some prov_witness_prog)) ms = [true; false; false; false; true] /\
+  bc_proc (snd (fst res)) = 2 /\ map (bc_recv (snd (fst res))) [0; 1; 2; 3; 4; 5; 6] = [0; 2; 1; 0; 1; 0; 1] /\
+  outs_of (snd res) = [OsmTopic 2 None 1; OsmTopic 2 None 1; OsmTopic 2 None 1].
+Proof. vm_compute. repeat split; reflexivity. Qed.
